@@ -446,3 +446,92 @@ func (x *Exec) decodedFrom(st *State, obj int, t types.Type, data Term, name str
 	st.heap[obj] = VStruct{fields}
 	x.structCodecs["tojson."+typeShort(t)] = structCodec{typ: t, sorts: sorts}
 }
+
+func init() {
+	// html/template and text/template as used by generatePromiseId: Parse may fail, Must panics
+	// on a parse error, Execute writes subst(template, vars) -- for html/template with the
+	// values escaped (esc is uninterpreted: the output need not embed the values unaltered).
+	for _, pkg := range []string{"html/template", "text/template"} {
+		pkg := pkg
+		reg(pkg+".New", "template.New: fresh template", func(x *Exec, st *State, fr *Frame, c *callCtx) bool {
+			obj := x.alloc(st, &TemplateObj{Pkg: pkg})
+			return x.finish(st, fr, c, VPtr{Nil: TFalse, Loc: &Loc{Obj: obj}, Typ: c.ret.Type()})
+		})
+		reg("(*"+pkg+".Template).Parse", "Template.Parse: fails on malformed template text (client controlled)", func(x *Exec, st *State, fr *Frame, c *callCtx) bool {
+			p, _ := x.force(st, c.args[0]).(VPtr)
+			text := x.scalar(st, c.args[1])
+			bad := App(SBool, x.sym.Func("template.malformed", []Sort{SStr}, SBool), text)
+			ts, fs := x.fork(st, bad, "template text malformed")
+			if ts != nil {
+				x.completeCall(ts, c, VTuple{[]Value{VPtr{Nil: TTrue, Typ: p.Typ}, x.freshErr(ts, "template.parse.err", TFalse)}})
+			}
+			if fs != nil {
+				if p.Loc != nil {
+					fs.heap[p.Loc.Obj] = &TemplateObj{Pkg: pkg, Text: text, Parsed: true}
+				}
+				x.completeCall(fs, c, VTuple{[]Value{p, VIface{Nil: TTrue, Typ: errType()}}})
+			}
+			return true
+		})
+		reg(pkg+".Must", "template.Must panics when err != nil", func(x *Exec, st *State, fr *Frame, c *callCtx) bool {
+			ev, _ := x.force(st, c.args[1]).(VIface)
+			x.oblige(st, "panic", "template.Must panics on a template parse error", ev.Nil, c.common.Pos(), nil)
+			if ev.Nil.IsFalse() {
+				st.dead = true
+				return true
+			}
+			st.assume(ev.Nil)
+			return x.finish(st, fr, c, c.args[0])
+		})
+		reg("(*"+pkg+".Template).Execute", "Template.Execute writes subst(text, vars) (html/template: subst of escaped values); may fail", func(x *Exec, st *State, fr *Frame, c *callCtx) bool {
+			p, _ := x.force(st, c.args[0]).(VPtr)
+			if !x.derefCheck(st, p, "Execute on nil template", c.common.Pos()) {
+				return true
+			}
+			to, _ := st.heap[p.Loc.Obj].(*TemplateObj)
+			text := x.sym.Fresh("template.text", SStr)
+			if to != nil && to.Text.S != "" {
+				text = to.Text
+			}
+			// data: map[string]string
+			var data Term = Term{"smap.empty", SMapSS}
+			if iv, ok := x.force(st, c.args[2]).(VIface); ok {
+				if m, ok := x.force(st, iv.Val).(VMap); ok && m.Obj >= 0 {
+					if ms, ok := st.heap[m.Obj].(MapSS); ok {
+						data = ms.A
+					}
+				}
+			}
+			fname := "template.subst"
+			if pkg == "html/template" {
+				fname = "template.subst.htmlescaped"
+			}
+			out := App(SStr, x.sym.Func(fname, []Sort{SStr, SMapSS}, SStr), text, data)
+			// writer: *strings.Builder
+			if wv, ok := x.force(st, c.args[1]).(VIface); ok {
+				if wp, ok := x.force(st, wv.Val).(VPtr); ok && wp.Loc != nil {
+					st.heap[wp.Loc.Obj] = &BuilderObj{S: out}
+				}
+			}
+			fail := x.sym.Fresh("template.exec.fails", SBool)
+			return x.finish(st, fr, c, x.freshErr(st, "template.exec.err", Not(fail)))
+		})
+	}
+	reg("(*strings.Builder).String", "strings.Builder.String returns what was written", func(x *Exec, st *State, fr *Frame, c *callCtx) bool {
+		p, _ := x.force(st, c.args[0]).(VPtr)
+		if p.Loc != nil {
+			if b, ok := st.heap[p.Loc.Obj].(*BuilderObj); ok {
+				return x.finish(st, fr, c, VScalar{b.S})
+			}
+		}
+		return x.finish(st, fr, c, VScalar{x.sym.Fresh("builder.string", SStr)})
+	})
+}
+
+type TemplateObj struct {
+	Pkg    string
+	Text   Term
+	Parsed bool
+}
+
+type BuilderObj struct{ S Term }
